@@ -251,6 +251,10 @@ class ProgGen(object):
             w, self.e = self.eword(target, absolute=True)
             self.emit("G92 " + w)
             return
+        if f.get("p_arc") and r.random() < f["p_arc"] and f.get("arcs") and (self.abs or f.get("arcs_rel")):
+            return self.arc()
+        if f.get("p_at") and r.random() < f["p_at"]:
+            return self.atcmd()
         if f.get("boost") and r.random() < f["boost"]:
             k = r.choice([0.955, 0.965])     # G28 mid-program / G92 X/Y/Z
         if k < 0.28:
@@ -518,6 +522,9 @@ def gen_program(rnd, feats, settings=None, nsteps=None, regions=None):
     if rnd.random() < 0.85:
         x, y = g.pt(False if rnd.random() < 0.85 else None)
         g.move(x=x, y=y, z=0.2, feed=1200)
+    if feats.get("start_rel") and rnd.random() < feats["start_rel"]:
+        g.abs = False
+        g.emit("G91")
     n = nsteps if nsteps is not None else rnd.randint(5, 45)
     for _ in range(n):
         g.step()
